@@ -6,6 +6,7 @@ import Frugal.Props.Inst.F_facts_bufferContract
 import Frugal.Props.Inst.F_skeleton_encoder
 import Frugal.Props.Inst.F_valid_headers
 import Frugal.Props.Inst.F_valid_sizes
+import Frugal.Props.Inst.F_skeleton_descTable
 namespace Frugal.C04
 open Frugal
 
@@ -54,4 +55,12 @@ example : let S : Schema := [{ fields := [{ id := 1, req := .optional, ty := .ma
     control structure (guards, switches, loops, returns, call sequence): regenerated fingerprint =
     committed fingerprint of the unchanged tree -/
 theorem model_written_from_this_code : Generated.facts.encoderSkeleton = Skeleton.encoder := Instances.skeleton_encoder
+/-- the schema the theorems quantify over reaches the codec through the descriptor tables (field index
+    by id, required ids, offsets, per-field flags and fixed sizes, the type node's tag / size / alignment /
+    element nodes): the declarations `structDesc`, `tField`, `tType` and the functions that fill them in
+    (`fromDefsFields`, `fromDefsField`, `GetField`, `newTType`) are, as full text, those the model and the
+    correspondence runs were validated against (regenerated fingerprint) -/
+theorem descriptor_tables_built_as_modelled : Generated.facts.descTableSkeleton = Skeleton.descTable :=
+  Instances.skeleton_descTable
+
 end Frugal.C04
